@@ -1,4 +1,6 @@
 import GoLevel.Proofs.DurableFault
+import GoLevel.Proofs.DurableStepFault
+import GoLevel.Props.C04
 /-!
 # Property C08 — storage failures
 
@@ -27,17 +29,29 @@ allowed to fail at any position, with or without effect, any number of times**, 
 D4): a journal `Sync` fails, the next write re-uses the sequence number, is acknowledged with `Sync`, and is
 dropped by `decodeBatchToMem` at the next `Open`.
 
-Not proved (`fault_safe_full`): the same for the whole machine (faults in the flush, the manifest commit and
-rotation, table compaction, transaction commit, and recovery).  The machine models these error paths, and
-random exploration of it (4 000 runs of 200 steps with 18 % injected faults, crash images checked after every
-step, `Scratch/Explore.lean` in the work area) finds no violation for the
-repaired configuration, but the invariant of `Proofs/Durable*.lean` is proved for fault-free steps only: with
-faults the journal holds failed groups that are not in the write buffer, which `RunOK.jcur`/`FrozenFacts`
-state as an equality.  Assumption made explicit in the model: a `SetMeta` that fails has had no effect
-(`stepJob`, pc `rotSetMeta`) — with `failEffect` there, `newManifest` removes the manifest `CURRENT` already
-names; `fileStorage.GetMeta` survives this only through its `CURRENT.bak` fallback, which is outside the
-`storage.Storage` contract.  Damaged data under checksum verification: C12 (journal chunks) and C13 (table
-blocks).
+What is proved for the whole machine (`fault_safe_jobs`): crash consistency (the statement of
+`C04.crash_consistent`) for every run in which **the storage operations of a memdb flush, a table compaction,
+a transaction commit and a recovery may fail**, with or without effect, at any position and any number of times:
+create / write / sync of an output table (the half-made table is dropped, the job retries; a recovery gives
+up), the journal `newMem` creates in a recovery, the creation / write / sync of a new manifest and `SetMeta`
+(the new manifest is dropped, the commit is retried), the append of a record to the manifest failing without
+effect (`session.manifestFailed`: the retry writes a fresh manifest — the repair of D8), the removal of the old
+manifest (logged only — the repair of D27), every removal of an obsolete file (logged only).  The two known
+findings are excluded by hypotheses named after them, evaluated in the state in which the action is taken:
+`Act.noD10` (the append to the manifest does not fail after the record reached the file, the manifest `Sync`
+does not fail) and `Act.noD26` (`SetMeta` does not fail after it took effect — the machine has no such step:
+with `failEffect` there `newManifest` removes the manifest `CURRENT` already names; `fileStorage.GetMeta`
+survives this only through its `CURRENT.bak` fallback, which is outside the `storage.Storage` contract).
+Journal faults of the write path are excluded there (`Act.writerFaultFree`); they are the subject of
+`fault_safe_partial`.
+
+Not proved (`fault_safe_full`): journal faults of the write path *together with* flushes and commits (with
+them the journal holds failed groups that are not in the write buffer, which `RunOK.jcur`/`FrozenFacts` state
+as an equality), and D10/D26.  Random exploration of the machine with all faults (4 000 runs of 200 steps with
+18 % injected faults, crash images checked after every step, `Scratch/Explore.lean` in the work area) finds no
+violation of crash consistency for the repaired configuration; restricted to the fault classes of
+`fault_safe_jobs` it finds no violation of the invariant either (3 000 runs), and for the excluded classes it
+does.  Damaged data under checksum verification: C12 (journal chunks) and C13 (table blocks).
 -/
 namespace GoLevel.C08
 open GoLevel GoLevel.Dur
@@ -119,6 +133,42 @@ theorem d4_loses_acked_write :
     lostAfterReopen { consumeSeqOnJournalError := false } syncFailsThenWrite = some [1] ∧
     readsAB { consumeSeqOnJournalError := false } syncFailsThenWrite = some (some [1], none) := by decide
 
+/-- **C08 for the jobs under storage faults.**  Every run whose faults are those of `Act.jobFaultsOnly` (every
+    failure inside a flush, a table compaction, a transaction commit or a recovery, the known findings D10 and
+    D26 excepted) ends in a state all of whose crash images open and are consistent with the history. -/
+theorem fault_safe_jobs {cfg : Cfg} (hg : cfg.Good) {as : List Act} {s : St} {d : Disk}
+    (hal : Allowed cfg Act.jobFaultsOnly init as) (hr : run cfg init as = some (s, d))
+    {d' : Disk} (hi : IsCrashImage d d') {c : UCmp} (hl : LawfulUCmp c) (hw : ∀ g ∈ issuedGrps s, g.wf) :
+    ∃ r, recoverR cfg d' = .ok r ∧ ∃ sel, C04.Consistent c s r sel := by
+  obtain ⟨ch, rfl⟩ := hi
+  have hinv : Inv cfg s d := inv_run_faults hg (inv_init cfg) as hal hr
+  obtain ⟨r, hrec, hgood⟩ := (hinv.disk.crash hg.noTrace ch).open_ok
+  exact ⟨r, hrec, C04.consistent_of_good hl hw hgood⟩
+
+/-- a flush in which the table `Write` fails once (with effect), the creation of the table fails once, the
+    append to the manifest fails without effect (so that the retry writes a new manifest), the `Write` of the
+    new manifest fails once and the removal of the old manifest fails -/
+def faultyFlush : List Act :=
+  [.wAppend C04.putKV true .ok, .wSync .ok, .wApply, .wPublish, .wAck, .rotate .ok, .flushStart,
+   .job false .ok, .job false .failEffect,             -- tCreate, tWrite fails: back to tCreate
+   .job false .failNoEffect,                            -- tCreate fails
+   .job false .ok, .job false .ok, .job false .ok,      -- the table
+   .job false .failNoEffect,                            -- append fails: `manifestFailed`
+   .job false .ok,                                      -- append: a new manifest is created
+   .job false .failEffect,                              -- rotWrite fails: the new manifest is dropped
+   .job false .ok, .job false .ok, .job false .ok, .job false .ok,   -- create, rotWrite, rotSync, rotSetMeta
+   .job false .failNoEffect,                            -- rotRemove fails: logged
+   .job false .ok, .job false .failNoEffect, .job false .ok, .job false .ok, .job false .ok]
+
+/-- … is a run `fault_safe_jobs` speaks about, the acknowledged write survives every step of it … -/
+example : allowed {} Act.jobFaultsOnly init faultyFlush = true := by decide
+example : (List.range (faultyFlush.length + 1)).all (fun n =>
+    C04.losesAcked {} {} (faultyFlush.take n) == some false) = true := by decide
+/-- … the flush completes and the value is read from the table after a reopen -/
+example : (run {} init faultyFlush).map (fun sd => (sd.1.job, sd.2.journals.map (·.1), sd.2.current,
+    sd.2.manifests.map (·.1))) = some (none, [2, 3], some 6, [1, 6]) := by decide
+example : C04.readsK {} faultyFlush = some (some [118]) := by decide
+
 /-- The statement for the whole machine with faults everywhere (not proved, see the header). -/
 def fault_safe_full : Prop :=
   ∀ (cfg : Cfg), cfg.Good → cfg.consumeSeqOnJournalError = true → ∀ (s : St) (d : Disk), Reachable cfg (s, d) →
@@ -129,6 +179,6 @@ def fault_safe_full : Prop :=
 
 /-- The property theorems of this file (for the audit). -/
 def theorems : List String :=
-  ["GoLevel.C08.fault_safe_partial", "GoLevel.C08.d4_loses_acked_write"]
+  ["GoLevel.C08.fault_safe_partial", "GoLevel.C08.fault_safe_jobs", "GoLevel.C08.d4_loses_acked_write"]
 
 end GoLevel.C08
